@@ -7,7 +7,10 @@ From JWT Require Import Base.GoSem Proofs.SrcBase Gen.SrcDecode Model.Decode.
 Open Scope string_scope.
 Open Scope list_scope.
 
-Inductive gv := GNil | GHeader (typ alg : string) | GIdent (i : ident) | GClaims (k : ckind) (data : string).
+(* (GKey: the key pair nkeys.FromPublicKey makes of an issuer; GGen: the struct DecodeGeneric unmarshals the payload into -
+   its text, whether a data map was made for it, the kind and the tags re-homed into that map) *)
+Inductive gv := GNil | GHeader (typ alg : string) | GIdent (i : ident) | GClaims (k : ckind) (data : string)
+  | GKey (k : string) | GGen (data : string) (made : bool) (ty : option string) (tags : option (list string)).
 
 Definition role_code (r : role) : Z :=
   match r with RAccount => 0 | ROperator => 112 | RUser => 160 | RServer => 104 | RCluster => 16 | RCurve => 184 | RNone => 255 end.
@@ -272,3 +275,109 @@ Print Assumptions src_load_claims_spec.
 Print Assumptions src_decode_spec.
 Print Assumptions src_decode_Operator_spec.
 Print Assumptions src_verify_spec.
+
+(* ---------- DecodeGeneric ----------
+   The payload is unmarshalled into a struct of the function's own (the generic claims and the version-1 fields side
+   by side): an opaque local.  verify is the translated ClaimsData.verify, fed nkeys functions instantiated so that it
+   answers the model's [verify] of the issuer; the stores that re-home a version-1 kind and tags into the data map
+   rebind the local - here they are recorded in the value, so the theorem says what was re-homed. *)
+Section GenericOracles.
+  Variable b64dec : string -> option string.
+  Variable parse_header : string -> option (string * string).
+  Variable issuer_of : string -> string.
+  Variable gunm_ok : string -> bool.
+  Variable verify : string -> string -> string -> bool.
+  Variable g_data_nil : string -> bool.        (* the payload has no nats section *)
+  Variable g_type : string -> string.          (* its top-level (version-1) type *)
+  Variable g_tags : string -> list string.     (* its top-level (version-1) tags *)
+
+  Definition og_unm (d : string) : gv * option string := if gunm_ok d then (GGen d false None None, None) else (GNil, e1).
+  Definition og_data (v : gv) : string := match v with GGen d _ _ _ => d | _ => "" end.
+  Definition og_issuer (v : gv) : string := issuer_of (og_data v).
+  Definition og_claims (v : gv) : gv := v.
+  Definition og_data_isnil (v : gv) : bool := match v with GGen d made _ _ => negb made && g_data_nil d | _ => true end.
+  Definition og_type (v : gv) : string := g_type (og_data v).
+  Definition og_tags (v : gv) : list string := g_tags (og_data v).
+  Definition og_set_make (v : gv) : gv := match v with GGen d _ t g => GGen d true t g | _ => v end.
+  Definition og_set_str (v : gv) (k s : string) : gv :=
+    match v with GGen d m t g => if (k =? "type")%string then GGen d m (Some s) g else v | _ => v end.
+  Definition og_set_list (v : gv) (k : string) (l : list string) : gv :=
+    match v with GGen d m t g => if (k =? "tags")%string then GGen d m t (Some l) else v | _ => v end.
+  Definition thirty_two : string := "01234567890123456789012345678901".
+  Definition og_decode_key (_ : Z) (_ : string) : string * option string := (thirty_two, None).
+  Definition og_from_public (iss : string) : gv * option string := (GKey iss, None).
+  Definition og_prefix (_ : string) : Z := 0%Z.
+  Definition og_kp_verify (v : gv) (text sig : string) : option string :=
+    match v with GKey k => if verify k text sig then None else e1 | _ => e1 end.
+
+  Definition src_decode_generic (tok : string) : gv * option string :=
+    V2.DecodeGeneric gv GNil (o_decodeString b64dec) (o_unm_header parse_header) og_unm og_decode_key og_from_public og_prefix
+      o_hdr_alg o_hdr_typ og_kp_verify og_claims og_data_isnil og_tags og_type og_issuer og_set_list og_set_str og_set_make tok.
+
+  (* what DecodeGeneric hands back for a payload text: as unmarshalled when the token is in the version-2 layout; with a data
+     map made if there was none, the kind and the tags re-homed if there are any, when it is in the version-1 layout *)
+  Definition generic_result (l : layout) (d : string) : gv :=
+    match l with
+    | LV2 => GGen d false None None
+    | LV1 => GGen d (g_data_nil d) (if (g_type d =? "")%string then None else Some (g_type d))
+                 (match g_tags d with [] => None | t => Some t end)
+    end.
+
+  Lemma set_type d m t g s : og_set_str (GGen d m t g) "type" s = GGen d m (Some s) g.
+  Proof. reflexivity. Qed.
+  Lemma set_tags d m t g l : og_set_list (GGen d m t g) "tags" l = GGen d m t (Some l).
+  Proof. reflexivity. Qed.
+  Lemma og_verify_spec (iss text sig : string) :
+    V2.ClaimsData_verify gv GNil iss og_decode_key og_from_public og_prefix og_kp_verify text sig = verify iss text sig.
+  Proof.
+    destruct (verify iss text sig) eqn:Ev.
+    - apply src_verify_spec. cbn. rewrite Ev. repeat split; reflexivity.
+    - destruct (V2.ClaimsData_verify gv GNil iss og_decode_key og_from_public og_prefix og_kp_verify text sig) eqn:E; [|reflexivity].
+      apply src_verify_spec in E. destruct E as [_ [_ [_ E]]]. cbn in E. rewrite Ev in E. discriminate.
+  Qed.
+
+  Theorem src_decode_generic_spec (tok : string) :
+    match decode_generic b64dec parse_header issuer_of gunm_ok verify tok with
+    | Some a => exists d, src_decode_generic tok = (generic_result (a_layout a) d, None) /\ issuer_of d = a_iss a /\ a_kind a = KGeneric
+    | None => snd (src_decode_generic tok) <> None
+    end.
+  Proof.
+    unfold src_decode_generic, V2.DecodeGeneric, decode_generic. cbv zeta. rewrite go_split_dot.
+    destruct (split dot tok) as [|c0 [|c1 [|c2 [|c3 r]]]]; try (cbn; discriminate).
+    2:{ assert (H : (go_llen (c0 :: c1 :: c2 :: c3 :: r) =? 3)%Z = false) by (apply Z.eqb_neq; unfold go_llen; cbn [length]; lia).
+        rewrite H. cbn. discriminate. }
+    change (go_llen [c0; c1; c2] =? 3)%Z with true. cbn [negb].
+    change (go_idx [c0; c1; c2] 0%Z) with c0. change (go_idx [c0; c1; c2] 1%Z) with c1. change (go_idx [c0; c1; c2] 2%Z) with c2.
+    change (V2.parseHeaders gv GNil (o_decodeString b64dec) (o_unm_header parse_header) o_hdr_alg o_hdr_typ c0) with (src_parse_headers b64dec parse_header c0).
+    rewrite src_parse_headers_spec.
+    destruct (b64dec c0) as [hj|]; [|cbn; discriminate].
+    destruct (parse_header hj) as [[typ alg]|]; [|cbn; discriminate].
+    destruct (header_valid typ alg) eqn:Hv; cbn [negb].
+    2:{ destruct (V2.Header_Valid alg typ) as [e|] eqn:E; [cbn; discriminate|].
+        apply header_valid_src in E. congruence. }
+    cbn [go_err_isnil negb]. unfold o_decodeString.
+    destruct (b64dec c1) as [data|]; [|cbn; discriminate]. cbn [go_err_isnil negb].
+    unfold og_unm. destruct (gunm_ok data); cbn [negb go_err_isnil]; [|cbn; discriminate].
+    destruct (b64dec c2) as [sig|]; [|cbn; discriminate]. cbn [go_err_isnil negb].
+    cbn [o_hdr_alg]. unfold og_issuer. cbn [og_data]. rewrite !og_verify_spec.
+    unfold Gen.Tables.alg_old.
+    assert (Hsub : go_substr tok 0%Z (go_slen c0 + go_slen c1 + 1) = substring 0 (String.length c0 + String.length c1 + 1) tok).
+    { unfold go_slen. rewrite <- (go_substr_prefix tok (String.length c0 + String.length c1 + 1)). f_equal. lia. }
+    rewrite Hsub. unfold protected.
+    destruct (alg =? "ed25519")%string.
+    - destruct (verify (issuer_of data) c1 sig); cbn [negb]; [|cbn; discriminate].
+      exists data. cbn [a_layout a_iss a_kind generic_result]. split; [|split; reflexivity].
+      unfold og_claims, og_type, og_tags. cbn [og_data_isnil negb andb og_data].
+      assert (Hmake : (if g_data_nil data then og_set_make (GGen data false None None) else GGen data false None None)
+                      = GGen data (g_data_nil data) None None) by (destruct (g_data_nil data); reflexivity).
+      rewrite Hmake. cbn [og_data].
+      destruct (g_type data =? "")%string; cbn [negb]; rewrite ?set_type; cbn [og_data];
+        (destruct (g_tags data) as [|t ts];
+         [reflexivity|
+          replace (go_llen (t :: ts) =? 0)%Z with false by (symmetry; apply Z.eqb_neq; unfold go_llen; cbn [length]; lia);
+          cbn [negb]; rewrite set_tags; reflexivity]).
+    - destruct (verify (issuer_of data) (substring 0 (String.length c0 + String.length c1 + 1) tok) sig); cbn [negb]; [|cbn; discriminate].
+      exists data. cbn [a_layout a_iss a_kind generic_result]. repeat split; reflexivity.
+  Qed.
+End GenericOracles.
+
